@@ -52,8 +52,26 @@ structure AInv (o : Opts) (A : AState) : Prop where
   contUniq : ∀ c ∈ A.containers, ∀ c' ∈ A.containers, c.id = c'.id → c = c'
   loopCids : ∀ y ∈ A.loops, y.cid < A.nextId
   loopNums : ∀ y ∈ A.loops, ∀ c ∈ A.containers, c.id = y.cid → y.num < c.nextLoopNum
-  loopKeys : ∀ y ∈ A.loops, ∀ z ∈ A.loops, y.cid = z.cid → y.num = z.num → y = z
+  loopPw : A.loops.Pairwise (fun y z => ¬ (y.cid = z.cid ∧ y.num = z.num))
   itemNorm : ∀ y ∈ A.loops, ∀ it ∈ y.items, it.1 = o.norm it.2
+
+theorem pairwise_unique {α} {R : α → α → Prop} (hs : ∀ a b, R a b → R b a) : ∀ l : List α, l.Pairwise R →
+    ∀ y ∈ l, ∀ z ∈ l, ¬ R y z → y = z
+  | [], _, _, hy, _, _, _ => by cases hy
+  | a :: r, hp, y, hy, z, hz, hn => by
+    rw [List.pairwise_cons] at hp
+    rcases List.mem_cons.mp hy with rfl | hy' <;> rcases List.mem_cons.mp hz with rfl | hz'
+    · rfl
+    · exact absurd (hp.1 z hz') hn
+    · exact absurd (hs _ _ (hp.1 y hy')) hn
+    · exact pairwise_unique hs r hp.2 y hy' z hz' hn
+
+/-- a loop is determined by (container id, loop number) -/
+theorem AInv.loopKeys {o : Opts} {A : AState} (hi : AInv o A) : ∀ y ∈ A.loops, ∀ z ∈ A.loops, y.cid = z.cid → y.num = z.num → y = z := by
+  intro y hy z hz e1 e2
+  apply pairwise_unique (R := fun y z : ALoop => ¬ (y.cid = z.cid ∧ y.num = z.num)) _ A.loops hi.loopPw y hy z hz
+  · intro h; exact h ⟨e1, e2⟩
+  · intro a b h h'; exact h ⟨h'.1.symm, h'.2.symm⟩
 
 theorem AInv.empty (o : Opts) : AInv o {} where
   frames := rfl
@@ -65,7 +83,7 @@ theorem AInv.empty (o : Opts) : AInv o {} where
   contUniq := by intro b h; cases h
   loopCids := by intro b h; cases h
   loopNums := by intro b h; cases h
-  loopKeys := by intro b h; cases h
+  loopPw := List.Pairwise.nil
   itemNorm := by intro b h; cases h
 
 /-- the loops of the block's container, as the tree shows them -/
@@ -208,7 +226,7 @@ theorem AInv.addBlock {o : Opts} {A : AState} (hi : AInv o A) (code : Str)
     · exact hi.loopNums y hy c h e
     · simp only [List.mem_singleton] at h; subst h
       have := hi.loopCids y hy; simp only [] at e; omega
-  loopKeys := hi.loopKeys
+  loopPw := hi.loopPw
   itemNorm := hi.itemNorm
 
 /-- **cif_create_block(_internal)**: a code that is valid (or the lenient call) and not in use in the tree — the call succeeds, the
@@ -238,5 +256,441 @@ theorem sim_mkBlock (o : Opts) (A : AState) (hi : AInv o A) (code : Str) (len : 
     simp only [List.map_cons, List.map_nil, blkTree_eq]
     have : loopsOf (addBlock A (o.norm code) code) A.nextId = [] := loopsOf_fresh o A hi
     rw [this]
+
+/-! ### states that differ in their loops only -/
+
+theorem AInv.ofLoops {o : Opts} {A : AState} (hi : AInv o A) (ls : List ALoop)
+    (hcid : ∀ y ∈ ls, y.cid < A.nextId) (hnum : ∀ y ∈ ls, ∀ c ∈ A.containers, c.id = y.cid → y.num < c.nextLoopNum)
+    (hkeys : ls.Pairwise (fun y z => ¬ (y.cid = z.cid ∧ y.num = z.num))) (hnorm : ∀ y ∈ ls, ∀ it ∈ y.items, it.1 = o.norm it.2) :
+    AInv o { A with loops := ls } where
+  frames := hi.frames
+  blkNorm := hi.blkNorm
+  blkCont := hi.blkCont
+  blkUniq := hi.blkUniq
+  ids := hi.ids
+  cids := hi.cids
+  contUniq := hi.contUniq
+  loopCids := hcid
+  loopNums := hnum
+  loopPw := hkeys
+  itemNorm := hnorm
+
+theorem AInv.filter {o : Opts} {A : AState} (hi : AInv o A) (q : ALoop → Bool) : AInv o { A with loops := A.loops.filter q } :=
+  hi.ofLoops _ (fun y hy => hi.loopCids y (List.mem_filter.mp hy).1) (fun y hy => hi.loopNums y (List.mem_filter.mp hy).1)
+    (List.Pairwise.filter q hi.loopPw)
+    (fun y hy => hi.itemNorm y (List.mem_filter.mp hy).1)
+
+/-- `onLoop` with a function that keeps the identity of the loop and normalised item keys -/
+theorem AInv.onLoop {o : Opts} {A : AState} (hi : AInv o A) (cid num : Nat) (f : ALoop → ALoop)
+    (hf : ∀ y ∈ A.loops, (f y).cid = y.cid ∧ (f y).num = y.num ∧ ∀ it ∈ (f y).items, it.1 = o.norm it.2) :
+    AInv o (A.onLoop cid num f) := by
+  have hF : ∀ y ∈ A.loops, (if (y.cid == cid && y.num == num) = true then f y else y).cid = y.cid ∧
+      (if (y.cid == cid && y.num == num) = true then f y else y).num = y.num := by
+    intro y hy; split
+    · exact ⟨(hf y hy).1, (hf y hy).2.1⟩
+    · exact ⟨rfl, rfl⟩
+  unfold AState.onLoop
+  apply hi.ofLoops
+  · intro y hy
+    obtain ⟨y0, hy0, rfl⟩ := List.mem_map.mp hy
+    rw [(hF y0 hy0).1]; exact hi.loopCids y0 hy0
+  · intro y hy c hc e
+    obtain ⟨y0, hy0, rfl⟩ := List.mem_map.mp hy
+    rw [(hF y0 hy0).2]; rw [(hF y0 hy0).1] at e; exact hi.loopNums y0 hy0 c hc e
+  · rw [List.pairwise_map]
+    apply List.Pairwise.imp_of_mem _ hi.loopPw
+    intro y0 z0 hy0 hz0 hR
+    rw [(hF y0 hy0).1, (hF z0 hz0).1, (hF y0 hy0).2, (hF z0 hz0).2]
+    exact hR
+  · intro y hy
+    obtain ⟨y0, hy0, rfl⟩ := List.mem_map.mp hy
+    split
+    · exact (hf y0 hy0).2.2
+    · exact hi.itemNorm y0 hy0
+
+theorem loopsOf_filter (A : AState) (q : ALoop → Bool) (c : Nat) :
+    loopsOf { A with loops := A.loops.filter q } c = ((A.loops.filter (fun y => y.cid == c)).filter q).map ALoop.toLoop := by
+  unfold loopsOf
+  simp only [List.filter_filter]
+  congr 1
+  apply List.filter_congr
+  intro y _
+  exact Bool.and_comm _ _
+
+theorem filter_self_of {α} (q : α → Bool) (l : List α) (h : ∀ y ∈ l, q y = true) : l.filter q = l :=
+  List.filter_eq_self.mpr h
+
+/-! ### cif_container_prune -/
+
+def pruned (A : AState) (cid : Nat) : AState := { A with loops := A.loops.filter (fun y => !(y.cid == cid && y.packets.isEmpty)) }
+
+theorem pruneC_eq : pruneC = fun c => Container.mk c.code c.frames (c.loops.filter fun l => !l.packets.isEmpty) := by
+  funext c; cases c; rfl
+
+/-- **cif_container_prune** on the container of block `b` -/
+theorem sim_prune (o : Opts) (A : AState) (hi : AInv o A) (k : Str) (b : BlockRow) (hb : BlockAt A k b) (h : CH) (hh : h.id = b.cid) :
+    Store.specPrune A h = (pruned A b.cid, .ok ()) ∧ AInv o (pruned A b.cid) ∧
+      (pruned A b.cid).tree = updIn o.norm pruneC [k] A.tree := by
+  refine ⟨by unfold Store.specPrune pruned; rw [hh], hi.filter _, ?_⟩
+  rw [pruneC_eq, ← hb.2]
+  apply tree_upd o A (pruned A b.cid) hi b hb.1 (fun ls => ls.filter fun l => !l.packets.isEmpty) rfl hi.frames
+  · intro c hc
+    unfold pruned
+    rw [loopsOf_filter, filter_self_of]
+    · rfl
+    · intro y hy
+      have : y.cid = c := by simpa using (List.mem_filter.mp hy).2
+      have hne : (y.cid == b.cid) = false := by rw [this]; simpa using hc
+      simp [hne]
+  · unfold pruned
+    rw [loopsOf_filter]
+    unfold loopsOf
+    rw [List.filter_map]
+    congr 1
+    apply List.filter_congr
+    intro y hy
+    have : (y.cid == b.cid) = true := (List.mem_filter.mp hy).2
+    simp [this, Function.comp, ALoop.toLoop]
+
+/-! ### cif_container_create_loop -/
+
+theorem names_toLoop_any (o : Opts) (y : ALoop) (hn : ∀ it ∈ y.items, it.1 = o.norm it.2) (k : Str) :
+    (y.toLoop.names.any fun n => o.norm n == k) = y.hasItem k := by
+  unfold ALoop.toLoop ALoop.hasItem
+  simp only [List.any_map]
+  apply any_congr'
+  intro it hit
+  simp only [Function.comp, ← hn it hit]
+
+/-- "the container has the item", on the tree and on the identity model -/
+theorem hasItem_tree (o : Opts) (A : AState) (hi : AInv o A) (b : BlockRow) (k : Str) :
+    hasItem o.norm (blkTree A b) k = A.hasItem b.cid k := by
+  unfold hasItem AState.hasItem
+  simp only [blkTree_eq, loopsOf, Container.loops, List.any_map, List.any_filter]
+  apply any_congr'
+  intro y hy
+  simp only [Function.comp, names_toLoop_any o y (hi.itemNorm y hy)]
+
+theorem namesFresh_of (o : Opts) (A : AState) (cid : Nat) (cc : Container) (hitem : ∀ k, hasItem o.norm cc k = A.hasItem cid k) :
+    ∀ names : List Str, ((names.any fun n => hasItem o.norm cc (o.norm n)) || hasDup (names.map o.norm)) = false →
+      A.namesFresh cid (names.map (mkName o true)) = true
+  | [], _ => rfl
+  | n :: ns, h => by
+    simp only [List.any_cons, List.map_cons, hasDup, Bool.or_eq_false_iff] at h
+    obtain ⟨⟨h1, h2⟩, h3, h4⟩ := h
+    have ih := namesFresh_of o A cid cc hitem ns (by simp only [Bool.or_eq_false_iff]; exact ⟨h2, h4⟩)
+    simp only [List.map_cons, AState.namesFresh, ih, Bool.and_true]
+    have hk : (mkName o true n).key = o.norm n := rfl
+    rw [hk, ← hitem, h1]
+    have : (ns.map (mkName o true)).any (fun m => m.key == o.norm n) = false := by
+      rw [List.any_map, List.any_eq_false]
+      intro x hx
+      simp only [Function.comp]
+      have hk' : (mkName o true x).key = o.norm x := rfl
+      rw [hk']
+      intro he
+      have : o.norm x = o.norm n := by simpa using he
+      have hc : (ns.map o.norm).contains (o.norm n) = true := by
+        rw [List.contains_iff_mem, ← this]
+        exact List.mem_map_of_mem hx
+      rw [hc] at h3; cases h3
+    rw [this]; rfl
+
+def incrLoopNum (cid : Nat) (r : ContainerRow) : ContainerRow := if r.id == cid then { r with nextLoopNum := r.nextLoopNum + 1 } else r
+
+/-- the state with one more loop (category NULL, no packet) in container `cid` -/
+def withLoop (o : Opts) (A : AState) (cid num : Nat) (names : List Str) : AState :=
+  { A with containers := A.containers.map (incrLoopNum cid),
+           loops := A.loops ++ [{ cid := cid, num := num, category := none, items := names.map (fun n => (o.norm n, n)), packets := [] }] }
+
+/-- the loop the parser is filling: the LAST loop of its container, category NULL, the header's names (distinct after
+    normalisation), identified by (container id, loop number) -/
+def OpenLoop (o : Opts) (A : AState) (cid num : Nat) (names : List Str) : Prop :=
+  ∃ ls0 x, A.loops.filter (fun y => y.cid == cid) = ls0 ++ [x] ∧ x.cid = cid ∧ x.num = num ∧ x.category = none ∧
+    x.items = names.map (fun n => (o.norm n, n)) ∧ (names.map o.norm).Nodup
+
+theorem find_container (o : Opts) (A : AState) (hi : AInv o A) (b : BlockRow) (hb : b ∈ A.blocks) :
+    ∃ c, c ∈ A.containers ∧ c.id = b.cid ∧ A.containers.find? (fun r => r.id == b.cid) = some c := by
+  obtain ⟨c, hc, e⟩ := hi.blkCont b hb
+  cases hf : A.containers.find? (fun r => r.id == b.cid) with
+  | none =>
+    have := List.find?_eq_none.mp hf c hc
+    simp [e] at this
+  | some c' =>
+    have hm := List.mem_of_find?_eq_some hf
+    have hk : c'.id = b.cid := by simpa using List.find?_some hf
+    exact ⟨c', hm, hk, rfl⟩
+
+theorem nodup_of_hasDup : ∀ ks : List Str, hasDup ks = false → ks.Nodup
+  | [], _ => List.nodup_nil
+  | k :: ks, h => by
+    simp only [hasDup, Bool.or_eq_false_iff] at h
+    rw [List.nodup_cons]
+    refine ⟨?_, nodup_of_hasDup ks h.2⟩
+    intro hm
+    have : ks.contains k = true := List.contains_iff_mem.mpr hm
+    rw [this] at h; cases h.1
+
+theorem AInv.withLoop {o : Opts} {A : AState} (hi : AInv o A) (b : BlockRow) (hb : b ∈ A.blocks) (c : ContainerRow)
+    (hc : c ∈ A.containers) (hcb : c.id = b.cid) (names : List Str) : AInv o (withLoop o A b.cid c.nextLoopNum names) where
+  frames := hi.frames
+  blkNorm := hi.blkNorm
+  blkCont := by
+    intro b' hb'
+    obtain ⟨c', hc', e⟩ := hi.blkCont b' hb'
+    refine ⟨incrLoopNum b.cid c', List.mem_map_of_mem hc', ?_⟩
+    unfold incrLoopNum; split <;> exact e
+  blkUniq := hi.blkUniq
+  ids := hi.ids
+  cids := by
+    intro c' hc'
+    obtain ⟨c0, hc0, rfl⟩ := List.mem_map.mp hc'
+    have := hi.cids c0 hc0
+    unfold incrLoopNum; split <;> exact this
+  contUniq := by
+    intro c1 h1 c2 h2 e
+    obtain ⟨a1, ha1, rfl⟩ := List.mem_map.mp h1
+    obtain ⟨a2, ha2, rfl⟩ := List.mem_map.mp h2
+    have e' : a1.id = a2.id := by
+      unfold incrLoopNum at e
+      split at e <;> split at e <;> exact e
+    rw [hi.contUniq a1 ha1 a2 ha2 e']
+  loopCids := by
+    intro y hy
+    rcases List.mem_append.mp hy with h | h
+    · exact hi.loopCids y h
+    · simp only [List.mem_singleton] at h; subst h; exact hi.ids b hb
+  loopNums := by
+    intro y hy c' hc' e
+    obtain ⟨c0, hc0, rfl⟩ := List.mem_map.mp hc'
+    have hid : (incrLoopNum b.cid c0).id = c0.id := by unfold incrLoopNum; split <;> rfl
+    rw [hid] at e
+    have hmono : c0.nextLoopNum ≤ (incrLoopNum b.cid c0).nextLoopNum := by
+      unfold incrLoopNum; split
+      · exact Nat.le_succ _
+      · exact Nat.le_refl _
+    rcases List.mem_append.mp hy with h | h
+    · have := hi.loopNums y h c0 hc0 e; omega
+    · simp only [List.mem_singleton] at h; subst h
+      simp only [] at e ⊢
+      have : c0 = c := hi.contUniq c0 hc0 c hc (by rw [e, hcb])
+      subst this
+      unfold incrLoopNum
+      have : (c0.id == b.cid) = true := by simp [hcb]
+      simp [this]
+  loopPw := by
+    show (A.loops ++ [_]).Pairwise _
+    rw [List.pairwise_append]
+    refine ⟨hi.loopPw, List.pairwise_singleton _ _, ?_⟩
+    intro y hy z hz
+    simp only [List.mem_singleton] at hz; subst hz
+    rintro ⟨e1, e2⟩
+    simp only [] at e1 e2
+    have := hi.loopNums y hy c hc (by rw [hcb, e1])
+    omega
+  itemNorm := by
+    intro y hy it hit
+    rcases List.mem_append.mp hy with h | h
+    · exact hi.itemNorm y h it hit
+    · simp only [List.mem_singleton] at h; subst h
+      obtain ⟨n, _, rfl⟩ := List.mem_map.mp hit
+      rfl
+
+def newLoop (o : Opts) (cid num : Nat) (names : List Str) : ALoop :=
+  { cid := cid, num := num, category := none, items := names.map (fun n => (o.norm n, n)), packets := [] }
+
+theorem toLoop_newLoop (o : Opts) (cid num : Nat) (names : List Str) :
+    (newLoop o cid num names).toLoop = { category := none, names := names, packets := [] } := by
+  unfold newLoop ALoop.toLoop
+  simp only [List.map_map]
+  congr 1
+  conv => rhs; rw [← List.map_id names]
+  apply List.map_congr_left
+  intro n _; rfl
+
+theorem loopsOf_withLoop_same (o : Opts) (A : AState) (cid num : Nat) (names : List Str) :
+    loopsOf (withLoop o A cid num names) cid = loopsOf A cid ++ [{ category := none, names := names, packets := [] }] := by
+  unfold loopsOf withLoop
+  simp only [List.filter_append, List.map_append]
+  congr 1
+  have : ([newLoop o cid num names].filter fun y => y.cid == cid) = [newLoop o cid num names] := by
+    simp [List.filter_cons, newLoop]
+  show ([newLoop o cid num names].filter fun y => y.cid == cid).map ALoop.toLoop = _
+  rw [this, List.map_cons, List.map_nil, toLoop_newLoop]
+
+theorem loopsOf_withLoop_other (o : Opts) (A : AState) (cid num : Nat) (names : List Str) (c : Nat) (hc : c ≠ cid) :
+    loopsOf (withLoop o A cid num names) c = loopsOf A c := by
+  unfold loopsOf withLoop
+  simp only [List.filter_append, List.map_append]
+  have : ([newLoop o cid num names].filter fun y => y.cid == c) = [] := by
+    have : (cid == c) = false := by simpa using (Ne.symm hc)
+    simp [List.filter_cons, newLoop, this]
+  show _ ++ ([newLoop o cid num names].filter fun y => y.cid == c).map ALoop.toLoop = _
+  rw [this, List.map_nil, List.append_nil]
+
+/-- **cif_container_create_loop** (category NULL) in the container of block `b`: names valid, absent from the container, pairwise
+    distinct (`SOp.docOk`) — the call succeeds; the new loop is the last one of the container -/
+theorem sim_mkLoop (o : Opts) (A : AState) (hi : AInv o A) (k : Str) (b : BlockRow) (hb : BlockAt A k b) (h : CH) (hh : h.id = b.cid)
+    (names : List Str) (hne : names ≠ []) (hv : (names.any fun n => !isValidName true n) = false)
+    (hcl : ((names.any fun n => hasItem o.norm (blkTree A b) (o.norm n)) || hasDup (names.map o.norm)) = false) :
+    ∃ c, c ∈ A.containers ∧ c.id = b.cid ∧
+      Store.specCreateLoop A h none (names.map (mkName o true))
+        = (withLoop o A b.cid c.nextLoopNum names, .ok { cid := b.cid, loopNum := c.nextLoopNum, category := none }) ∧
+      AInv o (withLoop o A b.cid c.nextLoopNum names) ∧
+      (withLoop o A b.cid c.nextLoopNum names).tree =
+        updIn o.norm (fun cc => Container.mk cc.code cc.frames (cc.loops ++ [{ category := none, names := names, packets := [] }])) [k] A.tree ∧
+      OpenLoop o (withLoop o A b.cid c.nextLoopNum names) b.cid c.nextLoopNum names := by
+  obtain ⟨c, hc, hcb, hfind⟩ := find_container o A hi b hb.1
+  refine ⟨c, hc, hcb, ?_, hi.withLoop b hb.1 c hc hcb names, ?_, ?_⟩
+  · have h1 : (names.map (mkName o true)).isEmpty = false := by
+      cases names with
+      | nil => exact absurd rfl hne
+      | cons _ _ => rfl
+    have h2 : (names.map (mkName o true)).any (fun n => !n.valid) = false := by
+      rw [List.any_map]; exact hv
+    have h3 : A.namesFresh b.cid (names.map (mkName o true)) = true :=
+      namesFresh_of o A b.cid (blkTree A b) (hasItem_tree o A hi b) names hcl
+    unfold Store.specCreateLoop Store.specCreateLoopI
+    simp only [h1, h2, hh, hfind, h3, Bool.false_eq_true, if_false, Bool.not_true]
+    have : ((none : Option Str) == some []) = false := rfl
+    simp only [this, Bool.false_and, Bool.false_eq_true, if_false]
+    unfold withLoop
+    simp only [List.map_map]
+    rfl
+  · rw [← hb.2]
+    exact tree_upd o A (withLoop o A b.cid c.nextLoopNum names) hi b hb.1
+      (fun ls => ls ++ [{ category := none, names := names, packets := [] }]) rfl hi.frames
+      (fun c' hc' => loopsOf_withLoop_other o A b.cid _ names c' hc') (loopsOf_withLoop_same o A b.cid _ names)
+  · refine ⟨A.loops.filter (fun y => y.cid == b.cid), newLoop o b.cid c.nextLoopNum names, ?_, rfl, rfl, rfl, rfl, ?_⟩
+    · unfold withLoop
+      simp only [List.filter_append]
+      congr 1
+      simp [List.filter_cons, newLoop]
+    · simp only [Bool.or_eq_false_iff] at hcl
+      exact nodup_of_hasDup _ hcl.2
+
+/-! ### cif_loop_add_packet on the loop being filled -/
+
+def withPkt (A : AState) (cid num : Nat) (vals : List V) : AState :=
+  A.onLoop cid num (fun y => { y with packets := y.packets ++ [vals] })
+
+/-- `onLoop` with a function that keeps the container id commutes with the selection of a container's loops -/
+theorem filter_onLoop (A : AState) (cid num : Nat) (f : ALoop → ALoop) (hf : ∀ y, (f y).cid = y.cid) (c : Nat) :
+    (A.onLoop cid num f).loops.filter (fun y => y.cid == c) =
+      (A.loops.filter (fun y => y.cid == c)).map (fun y => if (y.cid == cid && y.num == num) = true then f y else y) := by
+  unfold AState.onLoop
+  simp only [List.filter_map]
+  congr 1
+  apply List.filter_congr
+  intro y _
+  simp only [Function.comp]
+  split
+  · rw [hf y]
+  · rfl
+
+theorem loopsOf_onLoop_other (A : AState) (cid num : Nat) (f : ALoop → ALoop) (hf : ∀ y, (f y).cid = y.cid) (c : Nat) (hc : c ≠ cid) :
+    loopsOf (A.onLoop cid num f) c = loopsOf A c := by
+  unfold loopsOf
+  rw [filter_onLoop A cid num f hf c]
+  congr 1
+  conv => rhs; rw [← List.map_id (A.loops.filter fun y => y.cid == c)]
+  apply List.map_congr_left
+  intro y hy
+  have : y.cid = c := by simpa using (List.mem_filter.mp hy).2
+  have hne : (y.cid == cid) = false := by rw [this]; simpa using hc
+  simp [hne]
+
+/-- when the loop (cid, num) is the last loop `x` of its container, `onLoop` changes exactly that one -/
+theorem loopsOf_onLoop_last (o : Opts) (A : AState) (hi : AInv o A) (cid num : Nat) (f : ALoop → ALoop) (hf : ∀ y, (f y).cid = y.cid)
+    (ls0 : List ALoop) (x : ALoop) (hfl : A.loops.filter (fun y => y.cid == cid) = ls0 ++ [x]) (hxc : x.cid = cid) (hxn : x.num = num) :
+    (A.onLoop cid num f).loops.filter (fun y => y.cid == cid) = ls0 ++ [f x] := by
+  rw [filter_onLoop A cid num f hf cid, hfl]
+  have hpw : (ls0 ++ [x]).Pairwise (fun y z => ¬ (y.cid = z.cid ∧ y.num = z.num)) := by
+    rw [← hfl]; exact List.Pairwise.filter _ hi.loopPw
+  rw [List.pairwise_append] at hpw
+  rw [← hxc, ← hxn]
+  apply Store.map_onLoop_append
+  intro y hy
+  have := hpw.2.2 y hy x (List.mem_singleton.mpr rfl)
+  rw [Bool.eq_false_iff]
+  intro hk
+  simp only [Bool.and_eq_true, beq_iff_eq] at hk
+  exact this hk
+
+theorem mem_of_filter_eq {A : AState} {cid : Nat} {ls0 : List ALoop} {x : ALoop}
+    (hfl : A.loops.filter (fun y => y.cid == cid) = ls0 ++ [x]) : x ∈ A.loops := by
+  have : x ∈ A.loops.filter (fun y => y.cid == cid) := by rw [hfl]; simp
+  exact (List.mem_filter.mp this).1
+
+theorem findLoop_of_mem (o : Opts) (A : AState) (hi : AInv o A) (x : ALoop) (hx : x ∈ A.loops) : A.findLoop x.cid x.num = some x := by
+  unfold AState.findLoop
+  cases hf : A.loops.find? (fun y => y.cid == x.cid && y.num == x.num) with
+  | none =>
+    have := List.find?_eq_none.mp hf x hx
+    simp at this
+  | some x' =>
+    have hm := List.mem_of_find?_eq_some hf
+    have hk := List.find?_some hf
+    simp only [Bool.and_eq_true, beq_iff_eq] at hk
+    rw [hi.loopKeys x' hm x hx hk.1 hk.2]
+
+/-- **cif_loop_add_packet** of the packet `names ↦ values` on the open loop: the call succeeds and adds exactly the row of values to
+    the last loop of the container -/
+theorem sim_addPkt (o : Opts) (A : AState) (hi : AInv o A) (k : Str) (b : BlockRow) (hb : BlockAt A k b) (num : Nat) (names : List Str)
+    (hop : OpenLoop o A b.cid num names) (vals : List V) (hne : vals ≠ []) (hlen : names.length = vals.length)
+    (l : LH) (hl1 : l.cid = b.cid) (hl2 : l.loopNum = num) :
+    Store.specAddPacket A l ((names.map o.norm).zip vals) = (withPkt A b.cid num vals, .ok ()) ∧ AInv o (withPkt A b.cid num vals) ∧
+      (withPkt A b.cid num vals).tree = updIn o.norm (fun c => Container.mk c.code c.frames (addPacketLast c.loops vals)) [k] A.tree ∧
+      OpenLoop o (withPkt A b.cid num vals) b.cid num names := by
+  obtain ⟨ls0, x, hfl, hxc, hxn, hcat, hitems, hnd⟩ := hop
+  have hxm : x ∈ A.loops := mem_of_filter_eq hfl
+  have hfind : A.findLoop b.cid num = some x := by rw [← hxc, ← hxn]; exact findLoop_of_mem o A hi x hxm
+  have hfcid : ∀ y : ALoop, ({ y with packets := y.packets ++ [vals] } : ALoop).cid = y.cid := fun _ => rfl
+  have hlast := loopsOf_onLoop_last o A hi b.cid num (fun y => { y with packets := y.packets ++ [vals] }) hfcid ls0 x hfl hxc hxn
+  have hinv : AInv o (withPkt A b.cid num vals) := hi.onLoop b.cid num _ (fun y hy => ⟨rfl, rfl, hi.itemNorm y hy⟩)
+  refine ⟨?_, hinv, ?_, ?_⟩
+  · have hpkt : x.packetOf ((names.map o.norm).zip vals) = vals := by
+      unfold ALoop.packetOf
+      rw [hitems, List.map_map]
+      have := zip_lookup (names.map o.norm) vals hnd (by simp [hlen])
+      rw [List.map_map] at this
+      exact this
+    have h1 : ((names.map o.norm).zip vals).isEmpty = false := by
+      cases names with
+      | nil => cases vals with
+        | nil => exact absurd rfl hne
+        | cons _ _ => simp at hlen
+      | cons _ _ => cases vals with
+        | nil => exact absurd rfl hne
+        | cons _ _ => rfl
+    have h2 : (x.category == some [] && !x.packets.isEmpty) = false := by rw [hcat]; rfl
+    have h3 : ((names.map o.norm).zip vals).any (fun e => !x.hasItem e.1) = false := by
+      rw [List.any_eq_false]
+      intro e he
+      have hm := (List.of_mem_zip he).1
+      obtain ⟨n, hn1, hn2⟩ := List.mem_map.mp hm
+      have : x.hasItem e.1 = true := by
+        unfold ALoop.hasItem
+        rw [hitems, List.any_map, List.any_eq_true]
+        exact ⟨n, hn1, by simp [hn2]⟩
+      simp [this]
+    unfold Store.specAddPacket
+    simp only [h1, hl1, hl2, hfind, h2, h3, Bool.false_eq_true, if_false]
+    congr 1
+    unfold withPkt
+    apply Store.onLoop_congr
+    intro z hz hk
+    simp only [Bool.and_eq_true, beq_iff_eq] at hk
+    have : z = x := hi.loopKeys z hz x hxm (by rw [hk.1, hxc]) (by rw [hk.2, hxn])
+    rw [this, hpkt]
+  · rw [← hb.2]
+    apply tree_upd o A (withPkt A b.cid num vals) hi b hb.1 (fun ls => addPacketLast ls vals) rfl hi.frames
+    · intro c hc
+      exact loopsOf_onLoop_other A b.cid num _ hfcid c hc
+    · unfold loopsOf
+      rw [show (withPkt A b.cid num vals).loops.filter (fun y => y.cid == b.cid) = ls0 ++ [{ x with packets := x.packets ++ [vals] }] from hlast,
+        hfl, List.map_append, List.map_append, List.map_cons, List.map_nil, List.map_cons, List.map_nil, addPacketLast_append]
+      rfl
+  · exact ⟨ls0, { x with packets := x.packets ++ [vals] }, hlast, hxc, hxn, hcat, hitems, hnd⟩
 
 end CifModel.ParserSim
